@@ -21,11 +21,11 @@ Norm(cfg, i) == [raises |-> "no", wild |-> FALSE, doc |-> i.doc,
                  ret |-> NormR(cfg, i.ret)]
 
 \* ---- named deviations of the as-built code ------------------------------------------------------------
-Devs == {"numpydoc_embedded_unparsable",       \* wild : class/pydantic/function with a NumPy docstring AND a return entry: the return section is misread
-         "google_return_mangled",              \* wild : class/pydantic/function with a Google docstring and a return entry
+Devs == {                                      \* (repaired, 3d7b806 + 9021f5d: class/pydantic/function with a NumPy docstring AND a return entry: the return section was misread)
+         "google_return_mangled",              \* wild : function with a Google docstring and a return entry (class/pydantic: repaired, 3d7b806)
          "class_dict_no_default_raises",       \* exact: class/pydantic emit of a `dict` parameter without default raises TypeError
          "str_default_with_dot_truncated",     \* wild : emit_default_doc + a string default containing a full stop: cut at it when read back from the docstring (function: SyntaxError)
-         "empty_str_default_residue",          \* exact: emit_default_doc + empty-string default leaves a dangling 'Defaults to' in the description
+                                               \* (repaired, 2e64952: emit_default_doc + empty-string default left a dangling 'Defaults to' in the description)
                                                \* (repaired, 0fc255c: function + emit_default_doc: a None default came back as the string '(None)', annotation Optional[str])
          "function_neg_default_nonscalar_ast", \* wild (entry): negative default under a non-scalar annotation comes back as an AST node
          "argparse_required_gets_zero_default",\* exact: argparse gives a default-less int/float/str/Literal/List parameter its zero value
@@ -45,8 +45,7 @@ AsBuiltP(en, cfg, p) ==
   LET e0 == NormP(cfg, p)
       on(d) == d \in en
       \* class / pydantic / function
-      r1 == IF on("empty_str_default_residue") /\ Embedded(cfg) /\ cfg.edd /\ p.def = "str_empty"
-            THEN <<[e0 EXCEPT !.doc = "residue"], {"empty_str_default_residue"}>> ELSE <<e0, {}>>
+      r1 == <<e0, {}>>
       r1b == r1
       r2 == r1b
       r3 == IF on("function_neg_default_nonscalar_ast") /\ cfg.fmt = "function" /\ p.typ = "Union_int_str" /\ p.def = "int_neg"
@@ -73,9 +72,9 @@ AsBuilt(en, cfg, i) ==
   LET n == Len(i.params)
       per == [k \in 1..n |-> AsBuiltP(en, cfg, i.params[k])]
       \* (until the de-indenting repair EVERY embedded NumPy docstring was unreadable; what is left needs a return entry)
-      wildNp == "numpydoc_embedded_unparsable" \in en /\ cfg.style = "numpydoc" /\ Embedded(cfg) /\ i.ret # NoRet
+      wildNp == FALSE
       wildDot == "str_default_with_dot_truncated" \in en /\ Embedded(cfg) /\ cfg.edd /\ \E k \in 1..n : i.params[k].def = "str_dot" /\ i.params[k].typ = "absent"   \* (typed: repaired)
-      wildGr == "google_return_mangled" \in en /\ cfg.style = "google" /\ Embedded(cfg) /\ i.ret # NoRet
+      wildGr == "google_return_mangled" \in en /\ cfg.style = "google" /\ cfg.fmt = "function" /\ i.ret # NoRet
       dictRaise == "class_dict_no_default_raises" \in en /\ cfg.fmt \in {"class", "pydantic"}
                    /\ \E k \in 1..n : i.params[k].typ = "dict" /\ i.params[k].def = "absent"
       hasRetDef == i.ret # NoRet /\ i.ret.def # "absent"
@@ -90,7 +89,6 @@ AsBuilt(en, cfg, i) ==
                \cup (IF fnRet THEN {"function_return_default_mangled"} ELSE {})
                \cup (IF apRet THEN {"argparse_return_expr_default_requoted"} ELSE {})
                \cup (IF apGn THEN {"argparse_gn_return_default_raises"} ELSE {})
-               \cup (IF wildNp THEN {"numpydoc_embedded_unparsable"} ELSE {})
                \cup (IF wildGr THEN {"google_return_mangled"} ELSE {})
                \cup (IF wildDot THEN {"str_default_with_dot_truncated"} ELSE {})
                \cup (IF dictRaise THEN {"class_dict_no_default_raises"} ELSE {})
